@@ -11,7 +11,7 @@ Module containing types and functionality for non-async MQTT clients
 pub mod threaded;
 
 use std::sync::{Arc, Condvar, Mutex};
-use crate::error::GneissResult;
+use crate::error::{GneissError, GneissResult};
 use crate::mqtt::*;
 use super::*;
 
@@ -44,6 +44,18 @@ impl<T> SyncResultSender<T> {
         }
     }
 
+    // applies a result unless one has already been applied
+    #[cfg_attr(not(feature="threaded"), allow(dead_code))]
+    pub(crate) fn apply_if_unset(&self, value: T) {
+        let mut current_value = self.result_lock.lock().unwrap();
+
+        if current_value.is_none() {
+            *current_value = Some(value);
+
+            self.result_signal.notify_all();
+        }
+    }
+
     #[cfg_attr(not(feature="threaded"), allow(dead_code))]
     pub(crate) fn apply(&self, value: T) {
         let mut current_value = self.result_lock.lock().unwrap();
@@ -55,6 +67,38 @@ impl<T> SyncResultSender<T> {
         *current_value = Some(value);
 
         self.result_signal.notify_all();
+    }
+}
+
+/// Delivers an error result if an operation's completion handler is dropped without ever having
+/// been invoked, which happens when the operation is still in the operation channel at the
+/// moment the client's event loop ends.
+#[cfg_attr(not(feature="threaded"), allow(dead_code))]
+pub(crate) struct SyncCompletionGuard<T> {
+    deliver: Option<Box<dyn FnOnce(GneissResult<T>) + Send + Sync>>,
+}
+
+#[cfg_attr(not(feature="threaded"), allow(dead_code))]
+impl<T> SyncCompletionGuard<T> {
+
+    pub(crate) fn new(deliver: Box<dyn FnOnce(GneissResult<T>) + Send + Sync>) -> SyncCompletionGuard<T> {
+        SyncCompletionGuard {
+            deliver: Some(deliver)
+        }
+    }
+
+    pub(crate) fn complete(mut self, result: GneissResult<T>) {
+        if let Some(deliver) = self.deliver.take() {
+            deliver(result);
+        }
+    }
+}
+
+impl<T> Drop for SyncCompletionGuard<T> {
+    fn drop(&mut self) {
+        if let Some(deliver) = self.deliver.take() {
+            deliver(Err(GneissError::new_client_closed()));
+        }
     }
 }
 
